@@ -345,7 +345,7 @@ func ruleC14_4(c *Ctx) {
 	nst, _ := node.Underlying().(*types.Struct)
 	// fingerprinted: fields whose loaded value is itself an operand of Sprintf (or compared in a branch that selects the format)
 	fp := map[*types.Var]bool{}
-	allInstrs(isCh, func(in ssa.Instruction) {
+	p.allInstrsDeep(isCh, func(in ssa.Instruction) {
 		call, ok := in.(*ssa.Call)
 		if !ok || staticCalleeName(&call.Call) != "fmt.Sprintf" {
 			return
